@@ -272,6 +272,9 @@ func nativeReplay(spec *Spec, l *loaded, tapes map[string]*engine.Tape, watchdog
 	}
 	out, err := cmd.CombinedOutput()
 	for _, line := range strings.Split(string(out), "\n") {
+		if strings.HasPrefix(line, "SCHED[") {
+			fmt.Println(line)
+		}
 		if i := strings.Index(line, "VERIF-RESULT "); i >= 0 {
 			rest := line[i+len("VERIF-RESULT "):]
 			sp := strings.IndexByte(rest, ' ')
@@ -349,7 +352,12 @@ func cmdCheck(args []string) int {
 	noReplay := fs.Bool("no-replay", false, "skip native replay (debug)")
 	noEvidence := fs.Bool("no-evidence", false, "do not write evidence (debug)")
 	cross := fs.Int("cross", -1, "number of path transcripts to cross-check with other solvers (-1: tier default)")
+	replayTape := fs.String("replay", "", "replay one tape natively and print what happened")
+	engineTape := fs.String("engine-replay", "", "re-run exactly the path of this tape in the engine (debug)")
 	fs.Parse(args)
+	if *replayTape != "" {
+		return cmdReplay(*prop, *replayTape)
+	}
 	if *tier == "" {
 		*tier = "quick"
 	}
@@ -460,6 +468,16 @@ func cmdCheck(args []string) int {
 			x := &engine.Explorer{Prog: l.prog, Cfg: cfg, SolverBin: *solver, SolverArgs: solverArgs, Workers: *workers,
 				MaxPaths: get("max_paths", 200000), Deadline: time.Duration(get("deadline_s", 600)) * time.Second, KeepTranscripts: crossN}
 			if *trace {
+				x.Workers = 1
+			}
+			if *engineTape != "" {
+				t := &engine.Tape{}
+				json.Unmarshal([]byte(mustRead(*engineTape)), t)
+				if t.Harness != h.Name {
+					continue
+				}
+				x.StartDecisions = t.Decisions
+				x.MaxPaths = 1
 				x.Workers = 1
 			}
 			st := x.Run(fn)
@@ -652,4 +670,40 @@ func flagSet(fs *flag.FlagSet, name string) bool {
 		}
 	})
 	return found
+}
+
+// cmdReplay replays a single tape against the native build and prints the outcome.
+func cmdReplay(prop, path string) int {
+	spec := &Spec{}
+	if err := json.Unmarshal([]byte(mustRead(filepath.Join(verifRoot, "harness", prop, "spec.json"))), spec); err != nil {
+		fatalf("spec: %v", err)
+	}
+	l := load(spec)
+	if len(l.errs) > 0 {
+		fmt.Printf("INCONCLUSIVE property=%s harness does not load: %s\n", prop, strings.Join(l.errs, "; "))
+		return 0
+	}
+	t := &engine.Tape{}
+	if err := json.Unmarshal([]byte(mustRead(path)), t); err != nil {
+		fatalf("tape: %v", err)
+	}
+	wd := ""
+	for _, u := range spec.Units {
+		for _, h := range u.Harnesses {
+			if h.Name == t.Harness && h.Watchdog != "" {
+				wd = h.Watchdog
+			}
+		}
+	}
+	res, msg := nativeReplay(spec, l, map[string]*engine.Tape{"tape": t}, wd)
+	if msg != "" {
+		fmt.Println(msg)
+	}
+	r := res["tape"]
+	fmt.Printf("tape %s: harness=%s label=%s kind=%s\nnative result: %s\n", path, t.Harness, t.Label, t.Kind, rrString(r))
+	if r != nil && (r.Failed == t.Label || (t.Label == "panic" && (r.Panic != "" || r.Crash)) || ((t.Label == "nontermination" || t.Label == "deadlock") && r.Timeout)) {
+		fmt.Printf("VIOLATION property=%s replay=%s\n", prop, path)
+		return 1
+	}
+	return 0
 }
